@@ -28,7 +28,7 @@ P = {
          "For each seed every truncation point and every I/O error position is enumerated under several segmentations; the monitored source knows what it delivered, the returned stream must replay exactly that and then the terminal condition.",
          "Trusted: the monitored reader; faults enter only through the io.Reader.", "DESIGN.md §3 C07"),
  "C08": ("exploration", "differential monitor: same bytes under many io.Reader delivery schedules must give identical outcomes",
-         "Each input is loaded under all-at-once and under fixed/random/short/data+EOF schedules (and bufio/short-count readers for the ICC reader); success, metadata, ICC bytes, header fields, tags and description must agree.",
+         "Each input is loaded under all-at-once and under fixed/random/short/data+EOF schedules (and bufio/short-count readers for the ICC reader); success, metadata, ICC bytes, header fields, tags and description must agree; so must what a caller still holds of one load's profile bytes after further loads, and each of three successive ReadProfile calls on one reader.",
          "Trusted: schedules conform to the io.Reader contract (0, nil only in the two zero-nil schedules, which the contract allows and defines as \"nothing happened\").", "DESIGN.md §3 C08"),
  "C09": ("exploration", "resource monitors (allocation delta, thread CPU time, reads after EOF) + recover() around every public call, in watchdog-supervised child processes, over a field-value matrix, structure-aware mutation and all truncations",
          "Hostile inputs drive Load -> ICCProfile -> Description and ReadProfile -> Description; a recovered panic, allocation above 2 MiB + 16384*n per call chain, or CPU above 2 s + 2 us*n is a violation; a dead/hung child is attributed to the logged case and replayed alone.",
@@ -37,7 +37,7 @@ P = {
          "Cross product of source types x destination types x geometries x parallelisms x transforms; every byte of the destination parent buffer is compared with a model built from At/Set.",
          "Trusted: image/color models of the standard library.", "DESIGN.md §3 C10"),
  "C11": ("exploration", "Go race detector over fresh-process first-use trials + value comparison against sequential results",
-         "Each trial is a fresh process under -race in which N goroutines make their first calls into one target set simultaneously; race reports with a prism frame and any value differing from the sequential value are violations.",
+         "Each trial is a fresh process under -race in which N goroutines make their first calls into one target set simultaneously; race reports with a prism frame and any value differing from the sequential value are violations; for the rejects target every outcome (values, error text, replayed bytes) is also compared with the same load made as the only call of a process of its own.",
          "Trusted: the race detector's happens-before analysis; schedules with unobserved synchronisation shapes are out of reach.", "DESIGN.md §3 C11"),
  "C12": ("exploration", "reference-model monitor: independent float64 Bradford adaptation; algebraic laws on white-point pairs and triples",
          "All ordered pairs of a white-point set are compared entry-wise with the float64 Bradford matrix, white->white, identity, inverse, composition and constructor agreement are observed.",
